@@ -116,6 +116,12 @@ type c11Conn struct {
 var nearKeySends atomic.Int64
 var ghostSends atomic.Int64
 var neverJoin atomic.Int64
+var fragFirst atomic.Int64
+var zeroKeyHistories atomic.Int64
+var onlyUnsupported atomic.Int64
+var c11ZeroBusy atomic.Bool
+
+const c11ZeroKey = "000000000000"
 var refusing atomic.Value // address of the server whose key function refuses 0x0200
 var c11ConnID atomic.Int64
 var c11Tag atomic.Uint32
@@ -142,6 +148,14 @@ func c11History(srv *svc.Server, c *core.Collector, seed uint64, hid int, base i
 	keys := make([]string, nkeys)
 	for i := range keys {
 		keys[i] = fmt.Sprintf("%d", base+i)
+	}
+	if !customKey && refusing.Load() != srv.Addr && r0.Chance(1, 3) && c11ZeroBusy.CompareAndSwap(false, true) {
+		// the terminal whose phone number is all zeros (2013 header: the key is the twelve zeros, nothing is trimmed): one
+		// history at a time has it among its keys. Anything that normalises keys confuses it with the empty key of
+		// connections that never joined.
+		defer c11ZeroBusy.Store(false)
+		keys[0] = c11ZeroKey
+		zeroKeyHistories.Add(1)
 	}
 	var mu sync.Mutex
 	var conns []*c11Conn
@@ -221,7 +235,7 @@ func c11History(srv *svc.Server, c *core.Collector, seed uint64, hid int, base i
 		owner := &c11Conn{id: int(c11ConnID.Add(1)), key: key, phone: phoneOf(key, r)}
 		owner.firstSerial = uint16(owner.id)
 		conns = append(conns, owner)
-		t, err := svc.Dial(srv.Addr, r.Bool(), owner.phone)
+		t, err := svc.Dial(srv.Addr, r.Bool() && owner.key != c11ZeroKey, owner.phone)
 		if err != nil {
 			return nil, true, nil, 0
 		}
@@ -322,7 +336,7 @@ func c11History(srv *svc.Server, c *core.Collector, seed uint64, hid int, base i
 				mu.Lock()
 				conns = append(conns, cn)
 				mu.Unlock()
-				t, err := svc.Dial(srv.Addr, r.Bool(), cn.phone)
+				t, err := svc.Dial(srv.Addr, r.Bool() && cn.key != c11ZeroKey, cn.phone)
 				if err != nil {
 					dialFailed.Store(true)
 					return
@@ -363,10 +377,33 @@ func c11History(srv *svc.Server, c *core.Collector, seed uint64, hid int, base i
 					neverJoin.Add(1)
 					continue
 				}
+				if r.Chance(1, 9) {
+					// only an unsupported message, then gone: the connection never joins (its leave callback carries no key) and
+					// must leave every registered terminal alone
+					t.Write(t.Frame(0x0900, cn.firstSerial, []byte{1, 2, 3}))
+					time.Sleep(time.Duration(r.Intn(1500)) * time.Microsecond)
+					if r.Bool() {
+						t.Reset()
+					} else {
+						t.Close()
+					}
+					<-done
+					onlyUnsupported.Add(1)
+					continue
+				}
 				if r.Chance(1, 5) {
 					// an unsupported message first: the connection joins with its first HANDLED message
 					t.Write(t.Frame(0x0900, cn.firstSerial, []byte{1, 2, 3}))
 					t.Write(t.Frame(0x0002, 20000, nil))
+				} else if r.Chance(1, 7) {
+					// the first message is a sub-package fragment (a terminal resuming an upload after a reconnect): the connection
+					// joins with it like with any handled message — announced once to the join callback — although the fragment
+					// itself never reaches the read callbacks
+					t.Write(t.SubFrame(0x0801, cn.firstSerial, 3, uint16(1+r.Intn(3)), []byte{0, 0, 0, 9, 0, 0, 1, 1, 2, 3}))
+					if r.Bool() {
+						t.Write(t.Frame(0x0002, 20001, nil))
+					}
+					fragFirst.Add(1)
 				} else if r.Chance(1, 4) {
 					// the first write carries a SECOND frame with another phone number (a "ghost" key nobody ever joins under): on the
 					// owner's connection it is just another message; a refused duplicate must not come back under the ghost key
@@ -670,6 +707,9 @@ func c11Worker(c *core.Collector, x *Ctx) {
 			c.Counter("sends_to_look_alike_keys_that_nobody_owns").Store(nearKeySends.Load())
 			c.Counter("sends_to_ghost_keys_of_second_frames").Store(ghostSends.Load())
 			c.Counter("connections_that_only_sent_refused_messages").Store(neverJoin.Load())
+			c.Counter("connections_whose_first_message_was_a_fragment").Store(fragFirst.Load())
+			c.Counter("histories_with_the_all_zero_phone_among_the_keys").Store(zeroKeyHistories.Load())
+			c.Counter("connections_that_only_sent_an_unsupported_message").Store(onlyUnsupported.Load())
 			c.NonTrivial(core.HashString(fmt.Sprintf("%d/%d/%x", x.Batch, h, th)))
 			vmu.Lock()
 			switch {
